@@ -62,13 +62,13 @@ class CreateTableStatementGetter(abc.ABC):
 
     def load_from_disk(self, full_table_name: str) -> str:
         """从本地磁盘读取暂存的建表语句"""
-        with open(os.path.join(self._disk_path, f"{full_table_name}.sql"), "r", encoding="UTF-8") as file:
+        with open(os.path.join(self._disk_path, f"{full_table_name}.sql"), "r", encoding="UTF-8", newline="") as file:
             return file.read()
 
     def save_to_disk(self, full_table_name: str, sql: str) -> None:
         """从本地磁盘读取暂存的建表语句"""
         self._disk_cache.add(full_table_name)
-        with open(os.path.join(self._disk_path, f"{full_table_name}.sql"), "w", encoding="UTF-8") as file:
+        with open(os.path.join(self._disk_path, f"{full_table_name}.sql"), "w", encoding="UTF-8", newline="") as file:
             file.write(sql)
 
     @abc.abstractmethod
